@@ -16,7 +16,9 @@ NAMES = ["a", "B", "b", "A1", "a10", "a2", "Z", "_x", "ä", "é.txt", "file.txt"
          # decomposed (NFD) spellings: the tree must carry the name the directory has
          "e\u0301", "cafe\u0301.txt", "a\u0308", "caff.txt", "cafz.txt",
          # sort-sensitive against a rendering of the entry (quotes, blanks, punctuation)
-         "it's", "a!", "a'b", "a&b", "__init__.py"]
+         "it's", "a!", "a'b", "a&b", "__init__.py",
+         # not valid UTF-8 on disk (latin-1 bytes), seen by Python as surrogate escapes
+         "caf\udce9.txt", "\udcff"]
 
 
 def draw_dir(rng, depth=0, budget=None):
@@ -43,10 +45,11 @@ def draw_dir(rng, depth=0, budget=None):
 
 def materialise(root: str, spec: dict):
     for name, ent in spec.items():
-        p = os.path.join(root, name)
+        # names may carry surrogate escapes (bytes that are not valid UTF-8 on disk)
+        p = os.fsencode(os.path.join(root, name))
         if ent[0] == "d":
             os.mkdir(p)
-            materialise(p, ent[1])
+            materialise(os.path.join(root, name), ent[1])
         else:
             with open(p, "wb") as f:
                 f.truncate(ent[1])
@@ -72,9 +75,9 @@ class DirOrder:
         return p == self.root or p.startswith(self.root + os.sep)
 
     def _perm(self, path, items, key):
-        rng = R.stream(self.seed, "dir/" + os.path.relpath(os.path.realpath(os.fspath(path)),
-                                                         self.root))
-        items = sorted(items, key=key)
+        rel = os.path.relpath(os.path.realpath(os.fspath(path)), self.root)
+        rng = R.stream(self.seed, "dir/" + os.fsencode(rel).hex())
+        items = sorted(items, key=lambda x: os.fsencode(key(x)))
         rng.shuffle(items)
         self.calls += 1
         return items
@@ -232,6 +235,49 @@ def fs_case(base_seed, index, tier, nt):
                         viol.append(("save-load", f"saved+loaded tree {describe(loaded)!r:.300} "
                                                   f"differs from the scanned one {got!r:.300}",
                                      "save-load"))
+                    # the same through a real file (text encoding of the target matters)
+                    fpath = os.path.join(root, f"saved-{int(sort)}.nutree")
+                    comp = rng.choice([False, False, True])
+                    try:
+                        tree.save(fpath, compression=comp)
+                        loaded2 = FileSystemTree.load(fpath)
+                        if describe(loaded2) != got:
+                            viol.append(("save-load", "tree saved to a file and loaded differs "
+                                                      "from the scanned one", "save-load/path"))
+                    except Exception as e:  # noqa: BLE001
+                        viol.append(("save-load-raised", f"path target: {type(e).__name__}: {e}",
+                                     "save-load/path"))
+        # a file changed in place (content appended, mtime set) must show in the next scan
+        files = []
+
+        def collect(sp, base):
+            for name, ent in sp.items():
+                if ent[0] == "f":
+                    files.append((base + [name], ent))
+                else:
+                    collect(ent[1], base + [name])
+
+        collect(spec, [])
+        if files:
+            pathparts, ent = rng.choice(files)
+            fp = os.fsencode(os.path.join(scan_root, *pathparts))
+            new_size = ent[1] + rng.choice([1, 7, 4096])
+            new_mtime = ent[2] + rng.choice([1.0, 3600.5])
+            with open(fp, "ab") as f:
+                f.truncate(new_size)
+            os.utime(fp, (new_mtime, new_mtime))
+            sp = spec
+            for part in pathparts[:-1]:
+                sp = sp[part][1]
+            sp[pathparts[-1]] = ("f", new_size, new_mtime)
+            try:
+                tree = load_tree_from_fs(scan_root, sort=True)
+                if _norm(describe(tree)) != _norm(expected_unsorted(spec)):
+                    viol.append(("rescan", "a scan after a file was changed in place does not "
+                                           "report the new size / modification time", "rescan"))
+            except Exception as e:  # noqa: BLE001
+                viol.append(("scan-raised", f"rescan raised {type(e).__name__}: {e}", "rescan"))
+            stats["scans"] += 1
         if len(sorted_results) > 1 and any(r != sorted_results[0] for r in sorted_results[1:]):
             viol.append(("order-depends-on-enumeration",
                          "sort=True gives different trees for different directory enumeration "
